@@ -43,6 +43,8 @@ CONTRACT_R = "compile() on a reused compiler instance gives the same result as o
 CONTRACT_T = "decompiling the same routine-set objects again gives the same text and source map"
 CONTRACT_F = "convert() leaves offsets, op codes, every parameter value and machine(input) of the caller's routine set unchanged"
 CONTRACT_I = "output does not depend on the indent a string parameter object was last printed at"
+CONTRACT_O = "a decompile call's result does not depend on the order in which a large set of routine sets is decompiled in one process"
+CONTRACT_S = "every process-wide mutable binding of the package (mutable default argument, mutated module-level object, class-level mutable attribute, `global`) is on the audited list with a discharge reason"
 CONTRACT_G = "a stale entry of the id(graph)-keyed cache is never used for a different graph"
 
 DM = ("DMODE_CLOSED", "DMODE_OPEN", "DMODE_REQUEST", "DMODE_OPEN_AND_REQUEST")
@@ -99,6 +101,47 @@ def pool_sources(thorough: bool) -> list[dict]:
         {"kind": "compile", "name": "error-in-nested-block", "text": SRC_NESTED_ERROR},
         {"kind": "compile", "name": "error-in-macro", "text": SRC_MACRO_ERROR},
         {"kind": "compile", "name": "ssbscript", "text": SRC_SSBS},
+    ]
+
+
+# Import chains for clause R (reuse of one compiler object): all in ONE directory, so a path that an aborted compile() left
+# behind in the compiler object (e.g. on an import stack) is met again by a later compile() of the same object.
+_LIB_OK = "macro lib($a) {\n    lib_op($a);\n}\n"
+CHAIN_FILES = {
+    "lib_ok.exps": _LIB_OK,
+    "c_ok.exps": "macro mco() {\n    c_op();\n}\n",
+    "c_broken.exps": "macro mc( {\n    c_op();\n}\n",
+    "c_routine.exps": "macro mcr() {\n    c_op();\n}\ndef 0 {\n    not_allowed_here();\n}\n",
+    "b_ok.exps": 'import "./c_ok.exps";\nmacro mbo() {\n    ~mco();\n    b_op();\n}\n',
+    "b_broken.exps": 'import "./c_broken.exps";\nmacro mb() {\n    b_op();\n}\n',
+    "b_missing.exps": 'import "./c_ok.exps";\nimport "./nope.exps";\nmacro mbm() {\n    b_op();\n}\n',
+    "b_mixed.exps": 'import "./c_ok.exps";\nimport "./c_broken.exps";\nmacro mbx() {\n    b_op();\n}\n',
+    "b_routine.exps": 'import "./c_routine.exps";\nmacro mbr() {\n    b_op();\n}\n',
+    "b_stray.exps": 'import "./c_ok.exps";\nmacro mbs() {\n    break;\n}\n',
+}
+
+
+def _chain(name: str, file: str, text: str) -> dict:
+    return {"kind": "compile", "name": name, "dir": "chain", "file": file, "files": CHAIN_FILES, "text": text}
+
+
+def chain_calls() -> list[dict]:
+    """compile calls with imports that fail at depth >= 2, texts compiled under the name of a file that is imported by a later
+    call, and valid programs importing the files that were on the import chain of a failed call."""
+    main = "def 0 {{\n    {0}\n    end;\n}}\n"
+    return [
+        _chain("chain:a-b-broken_c", "a1.exps", 'import "./b_broken.exps";\n' + main.format("~mb();")),
+        _chain("chain:a-b-missing_c", "a2.exps", 'import "./b_missing.exps";\n' + main.format("~mbm();")),
+        _chain("chain:a-b-ok_c_then_broken_c", "a3.exps", 'import "./b_mixed.exps";\n' + main.format("~mbx();")),
+        _chain("chain:a-b-routine_in_c", "a4.exps", 'import "./b_routine.exps";\n' + main.format("~mbr();")),
+        _chain("chain:a-b-compile-error-in-b", "a5.exps", 'import "./lib_ok.exps";\nimport "./b_stray.exps";\n' + main.format("~lib(1);")),
+        _chain("chain:valid-imports-b_ok", "a6.exps", 'import "./b_ok.exps";\n' + main.format("~mbo();")),
+        _chain("chain:valid-imports-c_ok-lib_ok", "a7.exps", 'import "./c_ok.exps";\nimport "./lib_ok.exps";\n' + main.format("~mco();\n    ~lib(2);")),
+        _chain("chain:valid-same-file-name-as-a1", "a1.exps", 'import "./b_ok.exps";\n' + main.format("~mbo();")),
+        # a text that fails midway, compiled under the NAME of a file that later calls import
+        _chain("chain:broken-text-under-name-lib_ok", "lib_ok.exps", 'import "./c_broken.exps";\n' + _LIB_OK),
+        _chain("chain:broken-text-under-name-b_ok", "b_ok.exps", 'import "./c_ok.exps";\nimport "./c_broken.exps";\nmacro mbo() {\n    b_op();\n}\n'),
+        _chain("chain:broken-text-under-name-c_ok", "c_ok.exps", 'import "./b_broken.exps";\nmacro mco() {\n    c_op();\n}\n'),
     ]
 
 
@@ -229,15 +272,19 @@ def do_call(call: dict, compiler=None, keep: dict | None = None) -> bytes:
         if kind == "compile":
             from explorerscript.ssb_converting.ssb_compiler import ExplorerScriptSsbCompiler
 
-            d = os.path.join(root, "c-" + call["name"])
+            d = os.path.join(root, "c-" + call.get("dir", call["name"]))
             if not os.path.isdir(d):
-                os.makedirs(d, exist_ok=True)
+                tmp = tempfile.mkdtemp(prefix="mk-", dir=root)
                 for rel, content in call.get("files", {}).items():
-                    with open(os.path.join(d, rel), "w", encoding="utf-8") as fh:
+                    with open(os.path.join(tmp, rel), "w", encoding="utf-8") as fh:
                         fh.write(content)
-            comp = compiler or ExplorerScriptSsbCompiler(PPL, [])
+                try:
+                    os.rename(tmp, d)  # atomic: several fresh processes may want the same directory
+                except OSError:
+                    shutil.rmtree(tmp, ignore_errors=True)
+            comp = compiler or ExplorerScriptSsbCompiler(call.get("ppl", PPL), [])
             try:
-                comp.compile(call["text"], os.path.join(d, "main.exps"))
+                comp.compile(call["text"], os.path.join(d, call.get("file", "main.exps")))
                 res = canon_compile(comp)
             except Exception as e:  # noqa: BLE001
                 res = _exc_bytes(e)
@@ -251,7 +298,7 @@ def do_call(call: dict, compiler=None, keep: dict | None = None) -> bytes:
                 keep["objs"] = (infos, rops, coros)
             try:
                 if kind == "decompile":
-                    dec = ExplorerScriptSsbDecompiler(infos, rops, coros, PPL, DungeonModeConstants(*DM))
+                    dec = ExplorerScriptSsbDecompiler(infos, rops, coros, call.get("ppl", PPL), DungeonModeConstants(*DM))
                 else:
                     dec = SsbScriptSsbDecompiler(infos, rops, coros)
                 if keep is not None:
@@ -305,7 +352,7 @@ def task_sequence(args) -> dict:
             bad.append({"pos": start + pos, "call": ci, "before": list(seq[max(0, pos - 8) : pos]), "got": b.decode()[:4000]})
             if len(bad) >= 40:
                 break
-        if pos % 7 == 0:
+        if pos % 20 == 0:
             gc.collect()  # make id() recycling likely: results of earlier calls are dropped and collected
     return {"n": len(seq), "bad": bad}
 
@@ -480,6 +527,281 @@ def task_cache_attack(args) -> dict:
     return res
 
 
+GEN_PPL = "PERFORMANCE_PROGRESS_LIST"  # the variable name gen/programs.py uses
+CALL_TIMEOUT_S = 20
+
+
+class _CallTimeout(BaseException):
+    pass
+
+
+def _alarm(*_a):
+    raise _CallTimeout()
+
+
+def task_order_compile(args) -> list[dict]:
+    """Fresh process: compile (name, text, ppl) programs; returns decompile call descriptors for those that compile."""
+    import signal
+
+    root, progs = args
+    _setup(root)
+    from explorerscript.ssb_converting.ssb_compiler import ExplorerScriptSsbCompiler
+
+    signal.signal(signal.SIGALRM, _alarm)
+    out = []
+    for name, text, ppl in progs:
+        comp = ExplorerScriptSsbCompiler(ppl, [])
+        signal.alarm(CALL_TIMEOUT_S)
+        try:
+            old = sys.stderr
+            sys.stderr = _S["devnull"]
+            try:
+                comp.compile(text, os.path.join(root, "order.exps"))
+            finally:
+                sys.stderr = old
+                signal.alarm(0)
+        except (_CallTimeout, Exception):  # noqa: BLE001 - not this clause's business
+            continue
+        if any(i is None for i in comp.routine_infos) or not any(comp.routine_ops):
+            continue
+        call = {"kind": "decompile", "name": name, "ppl": ppl, "routines": describe_routines(comp.routine_ops, comp.routine_infos, comp.named_coroutines)}
+        if _probe_fast(call):
+            out.append(call)
+        else:
+            out.append({"kind": "excluded-slow", "name": name})
+    return out
+
+
+PROBE_S = 3.0
+
+
+def _probe_fast(call: dict) -> bool:
+    """Trial decompilation in a forked child that is killed after PROBE_S seconds.  Some routine sets keep the decompiler busy
+    for minutes inside one igraph call (a SIGALRM handler cannot interrupt that); they would stall every order run."""
+    import time
+
+    pid = os.fork()
+    if pid == 0:
+        try:
+            do_call(call)
+        finally:
+            os._exit(0)
+    t0 = time.time()
+    while time.time() - t0 < PROBE_S:
+        done, _st = os.waitpid(pid, os.WNOHANG)
+        if done:
+            return True
+        time.sleep(0.002)
+    os.kill(pid, 9)
+    os.waitpid(pid, 0)
+    return False
+
+
+def task_order_run(args) -> list[str]:
+    """Fresh process: the calls in the given order; digest per call, returned in the ORIGINAL index order."""
+    import signal
+
+    root, calls, order = args
+    _setup(root)
+    signal.signal(signal.SIGALRM, _alarm)
+    digs = [""] * len(calls)
+    for n, i in enumerate(order):
+        signal.alarm(CALL_TIMEOUT_S)
+        try:
+            try:
+                digs[i] = hashlib.sha1(do_call(calls[i])).hexdigest()
+            finally:
+                signal.alarm(0)
+        except _CallTimeout:
+            digs[i] = "timeout"
+        if n % 50 == 0:
+            gc.collect()
+    return digs
+
+
+def order_programs(seed: int, thorough: bool) -> tuple[list[tuple[str, str, str]], str]:
+    """(name, text, ppl) of the programs whose compiled routines form the large decompile pool; and where they come from."""
+    progs: list[tuple[str, str, str]] = []
+    src = "props.C10.valid_corpus"
+    try:
+        from gen import programs as GP
+
+        per_family = 400 if thorough else 45
+        for fam in GP.space("thorough" if thorough else "quick"):
+            n = len(fam)
+            step = max(1, n // per_family)
+            for i in range((seed * 7) % step, n, step):
+                pr = fam[i]
+                if pr is not None:
+                    progs.append((f"gen:{fam.name}:{i}", GP.to_text(pr), GEN_PPL))
+        for i, pr in enumerate(GP.random_programs(seed, 1200 if thorough else 200, 40)):
+            progs.append((f"gen:random:{i}", GP.to_text(pr), GEN_PPL))
+        src = "gen/programs.py (stride sample of every exhaustive family + seeded random programs) + props.C10.valid_corpus"
+    except Exception:  # noqa: BLE001 - optional source
+        pass
+    for name, text in valid_corpus(seed + 11, 600 if thorough else (100 if progs else 500), size=4):
+        progs.append(("corpus:" + name, text, PPL))
+    return progs, src
+
+
+# ---------------------------------------------------------------------------------------------------------------------
+# S: static frame audit (AST scan of the package, generated antlr files excluded)
+# ---------------------------------------------------------------------------------------------------------------------
+_MUTATING = {"append", "extend", "insert", "pop", "remove", "clear", "update", "add", "discard", "setdefault", "popitem", "sort", "reverse", "appendleft", "popleft"}
+_CONTAINER_CALLS = {"list", "dict", "set", "defaultdict", "OrderedDict", "deque", "Counter" + "__never__"}
+_IMMUTABLE_CALLS = {"frozenset", "tuple", "str", "int", "float", "bool", "bytes", "TypeVar", "NewType", "namedtuple", "getLogger", "compile", "Lock", "RLock", "object", "cast", "auto", "Path", "PurePath", "PurePosixPath"}  # fmt: skip
+
+# (kind, module, name) -> (reason, machine-checked condition or None)
+#   'never-mutated'  : no function of the package calls a mutating method on / stores into a binding of that name
+#   'shadowed'       : the class's __init__ assigns self.<name> (the class-level object is never the one that is used)
+AUDITED: dict[tuple[str, str, str], tuple[str, str | None]] = {
+    ("module-level", "explorerscript.ssb_converting.decompiler.graph_building.graph_utils", "find_first_common_next_vertex_in_edges_cache"): (
+        "memo keyed by id(graph): every lookup sequence for a graph starts with find_first_common_next_vertex_in_edges__clear_cache(g) "
+        "(graph_minimizer.py: before each branch lookup, before each switch lookup, at the start of build_loops/remove_label_markers), "
+        "so an entry of an earlier graph is never read; not dischargeable statically -> rests on clauses H, O and G of this check",
+        None,
+    ),
+    ("module-level", "explorerscript.cli.decompile", "counter"): (
+        "op counter of the decompile COMMAND; one process per command run; read_routines is not a documented interface (recorded under coverage.cli_decompile_counter)",
+        None,
+    ),
+    ("class-level", "explorerscript.ssb_converting.ssb_decompiler", "ExplorerScriptSsbDecompiler.labels_already_printed"): ("class-level default, replaced per instance in __init__ and again at the start of convert()", "shadowed"),
+    ("class-level", "explorerscript.ssb_converting.ssb_decompiler", "ExplorerScriptSsbDecompiler.forever_start_handler_stack"): ("class-level default, replaced per instance in __init__", "shadowed"),
+    ("class-level", "explorerscript.ssb_converting.decompiler.write_handlers.label_jump", "LabelJumpWriteHandler._label_jump_marker_handlers"): ("dispatch table marker type -> handler class, only read", "never-mutated"),
+    ("class-level", "explorerscript.ssb_converting.decompiler.write_handlers.simple_op", "SimpleOperationWriteHandler._ssb_operations_special_cases_handlers"): ("dispatch table op name -> handler class, only read", "never-mutated"),
+    ("class-level", "explorerscript.pygments.expslexer", "ExplorerScriptLexer.aliases"): ("pygments lexer metadata, only read by pygments", "never-mutated"),
+    ("class-level", "explorerscript.pygments.expslexer", "ExplorerScriptLexer.filenames"): ("pygments lexer metadata, only read by pygments", "never-mutated"),
+    ("class-level", "explorerscript.pygments.expslexer", "ExplorerScriptLexer.tokens"): ("pygments token table, compiled once by the RegexLexer metaclass, only read afterwards", "never-mutated"),
+}
+
+
+def static_audit(pkg_parent: str) -> dict:
+    """Scan <pkg_parent>/explorerscript.  Returns {'hits': [...], 'unaudited': [...], 'failed_conditions': [...], 'auto_discharged': n}."""
+    import ast
+
+    def callee(n: ast.Call) -> str:
+        f = n.func
+        return f.attr if isinstance(f, ast.Attribute) else (f.id if isinstance(f, ast.Name) else "?")
+
+    def mutable_value(v) -> str | None:
+        if isinstance(v, (ast.List, ast.Dict, ast.Set, ast.ListComp, ast.DictComp, ast.SetComp)):
+            return "container"
+        if isinstance(v, ast.Call):
+            c = callee(v)
+            if c in ("list", "dict", "set", "defaultdict", "OrderedDict", "deque"):
+                return "container"
+            if c not in _IMMUTABLE_CALLS:
+                return "object:" + c
+        return None
+
+    trees: dict[str, ast.Module] = {}
+    base = os.path.join(pkg_parent, "explorerscript")
+    for dp, dn, fn in sorted(os.walk(base)):
+        if os.sep + "antlr" in dp + os.sep or dp.endswith(os.sep + "antlr"):
+            continue
+        for f in sorted(fn):
+            if f.endswith(".py"):
+                path = os.path.join(dp, f)
+                mod = os.path.relpath(path, pkg_parent)[:-3].replace(os.sep, ".")
+                if mod.endswith(".__init__"):
+                    mod = mod[: -len(".__init__")]
+                with open(path, encoding="utf-8") as fh:
+                    trees[mod] = ast.parse(fh.read())
+
+    def base_name(x) -> str | None:
+        while isinstance(x, ast.Subscript):
+            x = x.value
+        if isinstance(x, ast.Name):
+            return x.id
+        if isinstance(x, ast.Attribute):
+            return x.attr
+        return None
+
+    mutated: set[str] = set()
+    hits: list[tuple[str, str, str, str]] = []
+    init_assigns: dict[tuple[str, str], set[str]] = {}
+    for mod, t in trees.items():
+        for fn_ in ast.walk(t):
+            if isinstance(fn_, (ast.FunctionDef, ast.AsyncFunctionDef)):
+                for n in ast.walk(fn_):
+                    if isinstance(n, ast.Call) and isinstance(n.func, ast.Attribute) and n.func.attr in _MUTATING:
+                        b = base_name(n.func.value)
+                        if b:
+                            mutated.add(b)
+                    elif isinstance(n, (ast.Assign, ast.Delete)):
+                        for x in n.targets:
+                            if isinstance(x, ast.Subscript) and base_name(x):
+                                mutated.add(base_name(x))
+                    elif isinstance(n, (ast.AugAssign, ast.AnnAssign)):
+                        x = n.target
+                        if isinstance(x, ast.Subscript) and base_name(x):
+                            mutated.add(base_name(x))
+                        elif isinstance(n, ast.AugAssign) and isinstance(x, ast.Name):
+                            mutated.add(x.id)
+                    elif isinstance(n, ast.Global):
+                        for nm in n.names:
+                            hits.append(("global", mod, f"{fn_.name}.{nm}", "global statement"))
+                            mutated.add(nm)
+        for c in ast.walk(t):
+            if isinstance(c, ast.ClassDef):
+                for m in c.body:
+                    if isinstance(m, ast.FunctionDef) and m.name == "__init__":
+                        for n in ast.walk(m):
+                            if isinstance(n, (ast.Assign, ast.AnnAssign)):
+                                for x in n.targets if isinstance(n, ast.Assign) else [n.target]:
+                                    if isinstance(x, ast.Attribute) and isinstance(x.value, ast.Name) and x.value.id == "self":
+                                        init_assigns.setdefault((mod, c.name), set()).add(x.attr)
+    auto = 0
+    for mod, t in trees.items():
+        for n in t.body:
+            if isinstance(n, (ast.Assign, ast.AnnAssign)) and getattr(n, "value", None) is not None:
+                mv = mutable_value(n.value)
+                for x in n.targets if isinstance(n, ast.Assign) else [n.target]:
+                    if isinstance(x, ast.Name) and mv:
+                        if mv == "container" and x.id not in mutated:
+                            auto += 1  # a constant table: never written after import
+                        else:
+                            hits.append(("module-level", mod, x.id, mv))
+        for c in ast.walk(t):
+            if isinstance(c, ast.ClassDef):
+                is_enum = any((isinstance(b, ast.Name) and b.id.endswith("Enum")) or (isinstance(b, ast.Attribute) and b.attr.endswith("Enum")) for b in c.bases)
+                for n in c.body:
+                    if isinstance(n, (ast.Assign, ast.AnnAssign)) and getattr(n, "value", None) is not None and not is_enum:
+                        mv = mutable_value(n.value)
+                        for x in n.targets if isinstance(n, ast.Assign) else [n.target]:
+                            if isinstance(x, ast.Name) and mv:
+                                hits.append(("class-level", mod, f"{c.name}.{x.id}", mv))
+            if isinstance(c, (ast.FunctionDef, ast.AsyncFunctionDef, ast.Lambda)):
+                a = c.args
+                pos = a.posonlyargs + a.args
+                pairs = list(zip(pos[len(pos) - len(a.defaults) :], a.defaults)) + [(k, d) for k, d in zip(a.kwonlyargs, a.kw_defaults) if d is not None]
+                for arg, d in pairs:
+                    mv = mutable_value(d)
+                    if mv:
+                        hits.append(("mutable-default", mod, f"{getattr(c, 'name', '<lambda>')}.{arg.arg}", mv))
+    unaudited, failed = [], []
+    for kind, mod, name, what in hits:
+        entry = AUDITED.get((kind, mod, name))
+        if entry is None:
+            unaudited.append([kind, mod, name, what])
+            continue
+        cond = entry[1]
+        attr = name.split(".")[-1]
+        if cond == "never-mutated" and attr in mutated:
+            failed.append([kind, mod, name, "audited as never mutated, but a function of the package mutates a binding of that name"])
+        if cond == "shadowed" and attr not in init_assigns.get((mod, name.split(".")[0]), set()):
+            failed.append([kind, mod, name, "audited as shadowed in __init__, but __init__ does not assign self." + attr])
+    hit_keys = {(k, m, n) for k, m, n, _ in hits}
+    return {
+        "modules": len(trees),
+        "hits": [list(h) for h in hits],
+        "unaudited": unaudited,
+        "failed_conditions": failed,
+        "auto_discharged": auto,
+        "stale_allowlist_entries": [list(k) for k in AUDITED if k not in hit_keys],
+    }
+
+
 def task_cli_counter(root: str) -> dict:
     """Observation (not a contract of C11, see run()): cli.decompile.read_routines twice in one process."""
     _setup(root)
@@ -576,15 +898,62 @@ def run(ctx: Ctx) -> PropResult:
                         )
                     )
             timing["baselines"] = round(time.time() - t0, 1)
+            # ---- schedule: everything below is independent work; submit it all now (short prerequisite tasks first, then the
+            # long order runs, then the history runs) and collect the results clause by clause further down.
+            import itertools
+            import random as _random
+
+            progs, prog_src = order_programs(ctx.seed, ctx.thorough)
+            ar_ocomp = fresh.map_async(task_order_compile, [(root, ch) for ch in _chunks(progs, -(-len(progs) // ctx.jobs))], chunksize=1)
+            r_calls = [c for c in pool if c["kind"] == "compile"] + chain_calls()
+            ar_rbase = fresh.map_async(task_baseline, [(root, c) for c in r_calls], chunksize=1)
+            corpus = valid_corpus(ctx.seed, 600 if ctx.thorough else 100, size=4)
+            ar_corpus = fresh.map_async(task_corpus_calls, [(root, ch) for ch in _chunks(corpus, 40)], chunksize=1)
+            o_call = next(c for c in pool if c["name"] == RAW_SWITCH_O["name"])
+            h_calls = [{"kind": "decompile", "name": raw["name"], "routines": {"table": raw["table"], "routines": raw["routines"]}} for raw in RAW_ATTACK_H]
+            attack_jobs = [(root, h, o_call, n_h, 150) for h in h_calls for n_h in (1, 3, 30)]
+            ar_attacks = fresh.map_async(task_cache_attack, attack_jobs, chunksize=1)
+            ar_ind = fresh.apply_async(task_indent, (root,))
+            ar_cli = fresh.apply_async(task_cli_counter, (root,))
+            # order runs (long, only K of them): start as soon as the routine sets are there
+            o_calls = [c for ch in ar_ocomp.get() for c in ch]
+            res.extra["O_excluded_slow_to_decompile"] = [c["name"] for c in o_calls if c["kind"] == "excluded-slow"]
+            o_calls = [c for c in o_calls if c["kind"] != "excluded-slow"]
+            o_calls += [c for c in pool if c["kind"] != "compile"]
+            n_o = len(o_calls)
+            K = 8 if ctx.thorough else 4
+            o_orders = [list(range(n_o)), list(reversed(range(n_o)))]
+            for k in range(K - 2):
+                sh = list(range(n_o))
+                _random.Random(f"C11-order-{ctx.seed}-{k}").shuffle(sh)
+                o_orders.append(sh)
+            ar_O = fresh.map_async(task_order_run, [(root, o_calls, o) for o in o_orders], chunksize=1)
+            timing["scheduled"] = round(time.time() - t0, 1)
             # ---- H
             seq = de_bruijn(len(pool), L)
-            n_chunks = ctx.jobs * (4 if ctx.thorough else 2)
+            n_chunks = ctx.jobs * 4 if ctx.thorough else (ctx.jobs * 3) // 2
             size = -(-len(seq) // n_chunks)
             jobs = []
             for s in range(0, len(seq), size):
                 lo = max(0, s - (L - 1))
                 jobs.append((root, pool, seq[lo : s + size], baseline, lo))
-            outs = fresh.map(task_sequence, jobs, chunksize=1)
+            ar_H = fresh.map_async(task_sequence, jobs, chunksize=1)
+            # R and T/F second stages, queued behind the history runs
+            r_names = [c["name"] for c in r_calls]
+            n_pool_c = sum(1 for c in pool if c["kind"] == "compile")
+            r_base = ar_rbase.get()
+            r_baseline = [d for d, _ in r_base]
+            all_idx = list(range(len(r_calls)))
+            chain_idx = all_idx[n_pool_c:]
+            orders = list(itertools.product(all_idx, repeat=2)) + list(itertools.product(chain_idx, repeat=3))
+            orders += list(itertools.product(all_idx, repeat=3)) if ctx.thorough else [tuple(all_idx), tuple(reversed(all_idx)), tuple(all_idx + all_idx)]
+            orders = list(dict.fromkeys(orders))
+            ar_R = fresh.map_async(task_reuse, [(root, r_calls, r_baseline, ch) for ch in _chunks(orders, -(-len(orders) // ctx.jobs))], chunksize=1)
+            dec_calls = [c for c in pool if c["kind"] != "compile"]
+            corpus_calls = [c for ch in ar_corpus.get() for c in ch]
+            # pool calls one per fresh process (so that T is not disturbed by what clause H/G is about); corpus in chunks
+            ar_TF = fresh.map_async(task_twice_and_frame, [(root, [c]) for c in dec_calls] + [(root, ch) for ch in _chunks(corpus_calls, 25)], chunksize=1)
+            outs = ar_H.get()
             n_calls = sum(o["n"] for o in outs)
             timing["H_runs"] = round(time.time() - t0, 1)
             seen_sig: dict[str, int] = {}
@@ -616,18 +985,14 @@ def run(ctx: Ctx) -> PropResult:
                     distinct_nontrivial=words,
                     exhaustive=True,
                     samples=[names[:4], seq[:12]],
-                    notes="exhaustive w.r.t. the stated pool and history length only; gc.collect() every 7th call to let id()s be recycled",
+                    notes="exhaustive w.r.t. the stated pool and history length only; gc.collect() every 20th call to let id()s be recycled",
                 )
             )
             timing["H_minimise"] = round(time.time() - t0, 1)
             # ---- R
-            comp_idx = [i for i, c in enumerate(pool) if c["kind"] == "compile"]
-            import itertools
-
-            orders = list(itertools.product(comp_idx, repeat=2)) + (list(itertools.product(comp_idx, repeat=3)) if ctx.thorough else [tuple(comp_idx), tuple(reversed(comp_idx)), tuple(comp_idx + comp_idx)])
-            rb = fresh.apply(task_reuse, ((root, pool, baseline, orders),))
+            rb = [b for ch in ar_R.get() for b in ch]
             done = set()
-            for b in rb:
+            for b in sorted(rb, key=lambda b: len(b["order"])):
                 ci = b["call"]
                 prev = b["order"][-2] if len(b["order"]) > 1 else None
                 key = (ci, prev)
@@ -636,24 +1001,27 @@ def run(ctx: Ctx) -> PropResult:
                 done.add(key)
                 res.violations.append(
                     Violation(
-                        signature=f"C11:R:compile:{names[ci]}:differs-on-reused-instance-after:{names[prev] if prev is not None else 'nothing'}",
-                        what=f"compile of '{names[ci]}' on a compiler instance already used for {[names[i] for i in b['order'][:-1]]} differs from a fresh instance",
-                        input={"mode": "reuse", "order": [pool[i] for i in b["order"]]},
+                        signature=f"C11:R:compile:{r_names[ci]}:differs-on-reused-instance-after:{r_names[prev] if prev is not None else 'nothing'}",
+                        what=f"compile of '{r_names[ci]}' on a compiler instance already used for {[r_names[i] for i in b['order'][:-1]]} differs from a fresh instance",
+                        input={"mode": "reuse", "order": [r_calls[i] for i in b["order"]]},
                         contract=CONTRACT_R,
-                        observed={"baseline": base[ci][1][:2000], "got": b["got"]},
+                        observed={"baseline": r_base[ci][1][:2000], "got": b["got"]},
                     )
                 )
             res.standins.append(
-                StandIn(contract="R: " + CONTRACT_R, tier="T3", bound=f"{len(orders)} orders over {len(comp_idx)} compile calls on one instance", evaluations=sum(len(o) for o in orders), distinct_nontrivial=len(orders), exhaustive=False, samples=[[names[i] for i in orders[1]]])
+                StandIn(
+                    contract="R: " + CONTRACT_R,
+                    tier="T3",
+                    bound=f"{len(orders)} orders on one compiler instance over {len(r_calls)} compile calls: all pairs, all triples of the {len(chain_idx)} import-chain calls (imports failing at depth 2, broken text under the name of a file imported later, valid importers of the same files)",
+                    evaluations=sum(len(o) for o in orders),
+                    distinct_nontrivial=len(orders),
+                    exhaustive=False,
+                    samples=[[r_names[i] for i in orders[len(all_idx) + 1]], r_names[n_pool_c:]],
+                )
             )
             timing["R"] = round(time.time() - t0, 1)
             # ---- T / F on the pool's decompile calls and on compiled corpus programs
-            dec_calls = [c for c in pool if c["kind"] != "compile"]
-            corpus = valid_corpus(ctx.seed, 600 if ctx.thorough else 100, size=4)
-            more = fresh.map(task_corpus_calls, [(root, ch) for ch in _chunks(corpus, 40)], chunksize=1)
-            corpus_calls = [c for ch in more for c in ch]
-            # pool calls one per fresh process (so that T is not disturbed by what clause H/G is about); corpus in chunks
-            tf = fresh.map(task_twice_and_frame, [(root, [c]) for c in dec_calls] + [(root, ch) for ch in _chunks(corpus_calls, 25)], chunksize=1)
+            tf = ar_TF.get()
             n_tf = 0
             by_name = {c["name"]: c for c in dec_calls + corpus_calls}
             seen_tf: set[str] = set()
@@ -687,7 +1055,7 @@ def run(ctx: Ctx) -> PropResult:
                 )
             timing["TF"] = round(time.time() - t0, 1)
             # ---- I
-            ind = fresh.apply(task_indent, (root,))
+            ind = ar_ind.get()
             n_ind = 0
             for r in ind:
                 if r["case"] == "evaluated":
@@ -704,10 +1072,7 @@ def run(ctx: Ctx) -> PropResult:
                 )
             res.standins.append(StandIn(contract="I: " + CONTRACT_I, tier="T3", bound="const string and language string; shared inside one routine set / reused in a second set", evaluations=n_ind, distinct_nontrivial=4, exhaustive=False, samples=["flag_Set($X, P); if (debug) { talk(P); }  with one object P = 'l1\\nl2'"]))
             # ---- G
-            o_call = next(c for c in pool if c["name"] == RAW_SWITCH_O["name"])
-            h_calls = [{"kind": "decompile", "name": raw["name"], "routines": {"table": raw["table"], "routines": raw["routines"]}} for raw in RAW_ATTACK_H]
-            attack_jobs = [(root, h, o_call, n_h, 300) for h in h_calls for n_h in (1, 3, 50)]
-            attacks = fresh.map(task_cache_attack, attack_jobs, chunksize=1)
+            attacks = ar_attacks.get()
             for a_, j_ in zip(attacks, attack_jobs):
                 a_["h"] = j_[1]["name"]
             res.extra["cache_attack"] = [{k: v for k, v in a.items() if k not in ("clean", "got")} for a in attacks]
@@ -718,20 +1083,114 @@ def run(ctx: Ctx) -> PropResult:
                     Violation(
                         signature="C11:G:stale-cache-entry-of-dead-graph-used:decompile:switch-only:after:fallback-after-branch-lookup",
                         what="a conversion that falls back to SsbScript leaves {edge ids: None} under id(graph) in find_first_common_next_vertex_in_edges_cache; a later graph that gets the same id() reads it and a switch loses its end label",
-                        input={"mode": "cache-attack", "h": h_call, "o": o_call, "n_h": hit["n_h"], "n_o": 300},
+                        input={"mode": "cache-attack", "h": h_call, "o": o_call, "n_h": hit["n_h"], "n_o": 150},
                         contract=CONTRACT_G,
                         observed=hit,
                     )
                 )
             if not any(a["stale_entries_after_history"] for a in attacks):
                 res.self_check_failures.append("clause G: none of the fallback routine sets leaves an entry in the cache any more - the attack is vacuous, pick new ones")
-            res.standins.append(StandIn(contract="G: " + CONTRACT_G, tier="T3", bound="3 fallback routine sets x history of 1/3/50 conversions, then up to 300 conversions of the switch-only set, gc.collect() between calls", evaluations=sum(300 if a["hit_at"] is None else a["hit_at"] + 1 for a in attacks), distinct_nontrivial=9, exhaustive=False, samples=[RAW_FALLBACK_H["routines"][0]["ops"], RAW_SWITCH_O["routines"][0]["ops"]]))
+            res.standins.append(StandIn(contract="G: " + CONTRACT_G, tier="T3", bound="3 fallback routine sets x history of 1/3/30 conversions, then up to 150 conversions of the switch-only set, gc.collect() between calls", evaluations=sum(150 if a["hit_at"] is None else a["hit_at"] + 1 for a in attacks), distinct_nontrivial=9, exhaustive=False, samples=[RAW_FALLBACK_H["routines"][0]["ops"], RAW_SWITCH_O["routines"][0]["ops"]]))
             timing["I_G"] = round(time.time() - t0, 1)
+            # ---- O: order dependence over a large, diverse decompile pool
+            o_digs = ar_O.get()
+            timing["O_runs"] = round(time.time() - t0, 1)
+            differing = [i for i in range(n_o) if len({d[i] for d in o_digs}) > 1]
+            res.extra["O_order_dependent_inputs"] = len(differing)
+            res.extra["O_pool_source"] = prog_src
+            if differing:
+                # witness: the first differing input (smallest description); which order is off? -> compare with the call alone
+                i = min(differing, key=lambda j: (len(json.dumps(o_calls[j]["routines"])), j))
+                alone = fresh.apply(task_baseline, ((root, o_calls[i]),))[0]
+                k_bad = next((k for k in range(K) if o_digs[k][i] != alone), None)
+                hist_calls: list[dict] = []
+                minimal = False
+                if k_bad is not None:
+                    before = o_orders[k_bad][: o_orders[k_bad].index(i)]
+                    lo, hi = 0, len(before)  # smallest suffix of the calls before i that still reproduces (assumes the leak persists)
+                    while lo < hi:
+                        mid = (lo + hi + 1) // 2  # try dropping the first `mid` calls
+                        d = fresh.apply(task_run_words, ((root, [o_calls[j] for j in before[mid:]] + [o_calls[i]]),))
+                        if d[-1] != alone:
+                            lo = mid
+                        else:
+                            hi = mid - 1
+                    suffix = before[lo:]
+                    if suffix:
+                        d1 = fresh.apply(task_run_words, ((root, [o_calls[suffix[0]], o_calls[i]]),))
+                        if d1[-1] != alone:
+                            hist_calls, minimal = [o_calls[suffix[0]]], True
+                        else:
+                            hist_calls = [o_calls[j] for j in suffix[:40]]
+                            dd = fresh.apply(task_run_words, ((root, hist_calls + [o_calls[i]]),))
+                            minimal = dd[-1] != alone
+                res.violations.append(
+                    Violation(
+                        signature="C11:O:decompile:result-depends-on-order-of-earlier-decompilations",
+                        what=f"{len(differing)} of {n_o} routine sets decompile differently depending on the order of the run; witness '{o_calls[i]['name']}'"
+                        + (f" after '{hist_calls[0]['name']}'" if len(hist_calls) == 1 else ""),
+                        input={"history": hist_calls, "observed": o_calls[i]},
+                        contract=CONTRACT_O,
+                        observed={"digests_per_order": [d[i] for d in o_digs], "alone": alone, "history_reproduces_in_fresh_process": minimal, "differing_inputs": [o_calls[j]["name"] for j in differing[:30]]},
+                    )
+                )
+            res.standins.append(
+                StandIn(
+                    contract="O: " + CONTRACT_O,
+                    tier="T3",
+                    bound=f"{n_o} routine sets (compiler output of {len(progs)} programs: {prog_src}; + the pool's sets) decompiled in {K} orders (identity, reversed, {K - 2} seeded shuffles), each order in its own fresh process",
+                    evaluations=n_o * K,
+                    distinct_nontrivial=len({json.dumps(c["routines"], sort_keys=True) for c in o_calls}),
+                    exhaustive=False,
+                    samples=[o_calls[0]["name"], progs[0][1]],
+                )
+            )
+            timing["O"] = round(time.time() - t0, 1)
             # ---- observation: CLI counter
-            res.extra["cli_decompile_counter"] = fresh.apply(task_cli_counter, (root,))
+            res.extra["cli_decompile_counter"] = ar_cli.get()
     finally:
         shutil.rmtree(root, ignore_errors=True)
 
+    # ---- S: static frame audit (no process needed: pure AST work)
+    audit = static_audit(os.path.dirname(os.path.dirname(_explorerscript_file())))
+    res.extra["static_audit"] = {k: v for k, v in audit.items() if k != "hits"}
+    res.extra["static_audit"]["audited_hits"] = len(audit["hits"]) - len(audit["unaudited"])
+    for kind, mod, name, what in audit["unaudited"]:
+        res.violations.append(
+            Violation(
+                signature=f"C11:static:{kind}:{mod}:{name}",
+                what=f"un-audited process-wide mutable state: {kind} {mod}:{name} ({what})",
+                input=None,
+                contract=CONTRACT_S,
+                observed={"kind": kind, "module": mod, "name": name, "value": what},
+                failing_input_found=False,
+            )
+        )
+    for kind, mod, name, why in audit["failed_conditions"]:
+        res.violations.append(
+            Violation(
+                signature=f"C11:static:{kind}:{mod}:{name}:discharge-condition-failed",
+                what=f"{kind} {mod}:{name}: {why}",
+                input=None,
+                contract=CONTRACT_S,
+                observed={"kind": kind, "module": mod, "name": name, "why": why},
+                failing_input_found=False,
+            )
+        )
+    res.standins.append(
+        StandIn(
+            contract="S: " + CONTRACT_S,
+            tier="T3",
+            bound=f"AST scan of {audit['modules']} modules of the package (explorerscript/antlr excluded): mutable defaults, module-level mutable bindings, class-level mutable attributes, global statements",
+            evaluations=audit["modules"],
+            distinct_nontrivial=len(audit["hits"]),
+            exhaustive=True,
+            samples=[h[:3] for h in audit["hits"][:3]],
+            notes=f"{audit['auto_discharged']} module-level container literals are never mutated by any function of the package (auto-discharged); {len(audit['hits']) - len(audit['unaudited'])} hits are on the audited list; name-based mutation analysis (an alias could hide a mutation); exhaustive only w.r.t. these four syntactic kinds",
+        )
+    )
+    if not audit["modules"]:
+        res.self_check_failures.append("clause S scanned no module")
     res.rule = (
         "pool (quick: 12 calls, thorough: 14) = compile calls (valid with macros, [thorough: valid big,] valid with an import, parse error, SsbCompilerError inside a nested "
         "block, ValueError inside a macro, SsbScript source) + decompile calls (compiler output of three sources, the SsbScript "
@@ -752,6 +1211,13 @@ def run(ctx: Ctx) -> PropResult:
     if not n_ind:
         res.self_check_failures.append("clause I never evaluated")
     return res
+
+
+def _explorerscript_file() -> str:
+    import importlib.util
+
+    spec = importlib.util.find_spec("explorerscript")  # located, not imported: the parent process stays free of antlr/igraph
+    return spec.origin
 
 
 def _chunks(xs: list, n: int) -> list[list]:
